@@ -26,6 +26,7 @@ import (
 	"sync"
 	"sync/atomic"
 	"testing"
+	"time"
 
 	"github.com/zeromicro/go-zero/core/breaker"
 	"github.com/zeromicro/go-zero/core/logx"
@@ -38,15 +39,84 @@ const vtxDriverName = "verif-tx"
 type vtxStmtSpec struct {
 	Kind string `json:"kind"` // exec | query | prep | nest
 	Ok   bool   `json:"ok"`
+	Ek   string `json:"ek"` // !ok: the error value the database answers with (see vtxErrOf)
+}
+
+// vtxCx says when the caller's context ends: at = none | pre (before the call) | body
+// (after K statements of the body; K = all of them: just before the body returns).
+type vtxCx struct {
+	At  string `json:"at"`
+	K   int    `json:"k"`
+	How string `json:"how"` // cancel | deadline
 }
 
 // vtxScript is one behaviour of the environment in TxImpl.tla.
 type vtxScript struct {
-	Begin []string      `json:"begin"` // per Begin attempt: ok | fail | bad | noconn
+	Begin []string      `json:"begin"` // per Begin attempt: ok | fail | bad | noconn | f:<error value>
 	Stmts []vtxStmtSpec `json:"stmts"`
 	End   string        `json:"end"` // nil | err | panic | none
 	Ek    string        `json:"ek"`  // err: plain|norows|notfound|canceled|txdone; panic: str|err|rt
 	Fin   string        `json:"fin"` // ok | fail | none (does Commit/Rollback succeed)
+	Fk    string        `json:"fk"`  // fin = fail: the error value Commit/Rollback answers with
+	Cx    vtxCx         `json:"cx"`  // the caller's context (TransactCtx only)
+}
+
+// vtxErrOf maps the error identities of TxImpl.tla (StmtErrs, FinErrs, "f:<id>") to error values;
+// nil = an ordinary error made up by the harness ("plain").
+func vtxErrOf(id string) error {
+	switch id {
+	case "bad":
+		return driver.ErrBadConn
+	case "txdone":
+		return sql.ErrTxDone
+	case "norows":
+		return sql.ErrNoRows
+	case "canceled":
+		return context.Canceled
+	case "deadline":
+		return context.DeadlineExceeded
+	case "eof":
+		return io.EOF
+	case "conndone":
+		return sql.ErrConnDone
+	}
+	return nil
+}
+
+// vtxCtx is the caller's context of one call; the harness ends it at the scripted point.
+// ("deadline" cannot use a real timer -- no wall-clock in this harness -- so it is a context
+// type of our own whose deadline lies an hour ahead and which expires when told to.)
+type vtxCtx struct {
+	context.Context
+	mu   sync.Mutex
+	done chan struct{}
+	err  error
+	dl   time.Time
+}
+
+func (c *vtxCtx) Deadline() (time.Time, bool) { return c.dl, true }
+func (c *vtxCtx) Done() <-chan struct{}       { return c.done }
+func (c *vtxCtx) Err() error {
+	c.mu.Lock()
+	defer c.mu.Unlock()
+	return c.err
+}
+func (c *vtxCtx) expire() {
+	c.mu.Lock()
+	defer c.mu.Unlock()
+	if c.err == nil {
+		c.err = context.DeadlineExceeded
+		close(c.done)
+	}
+}
+
+// vtxCallerCtx returns the context handed to TransactCtx and the function that ends it.
+func vtxCallerCtx(how string) (context.Context, func()) {
+	if how == "deadline" {
+		c := &vtxCtx{Context: context.Background(), done: make(chan struct{}), dl: time.Now().Add(time.Hour)}
+		return c, c.expire
+	}
+	return context.WithCancel(context.Background())
 }
 
 // vtxCase is one line of the driver input: a script and the API it is run through.
@@ -72,7 +142,7 @@ type vtxSession interface {
 }
 
 // vtxTransactor runs body in a transaction of the connection under test.
-type vtxTransactor func(useCtx bool, body func(context.Context, vtxSession) error) error
+type vtxTransactor func(ctx context.Context, useCtx bool, body func(context.Context, vtxSession) error) error
 
 // ---------------------------------------------------------------- world
 
@@ -87,7 +157,28 @@ type vtxCall struct {
 	att    int // Begin attempts (incl. failed opens) so far
 	mu     sync.Mutex
 	faults []vtxFault
-	holds  bool // concurrent mode: this call still holds the begin section
+	holds  bool   // concurrent mode: this call still holds the begin section
+	endCtx func() // ends the caller's context (nil: the call has none to end)
+	bound  bool   // its transaction was begun on a cancellable context
+}
+
+// ctxDone ends the caller's context; the event is written first: whatever the library or
+// database/sql do because of it comes later in the trace.
+func (c *vtxCall) ctxDone(w *vtxWorld) {
+	if c.endCtx == nil {
+		return
+	}
+	w.em.Emit(verifEv{"e": "ctxDone", "t": c.t, "how": c.sc.Cx.How})
+	c.endCtx()
+	c.endCtx = nil
+}
+
+// failure returns the error a scripted fault of the given kind answers with.
+func (c *vtxCall) failure(kind, id string) error {
+	if e := vtxErrOf(id); e != nil {
+		return c.note(kind, e)
+	}
+	return c.fault(kind)
 }
 
 func (c *vtxCall) fault(kind string) error {
@@ -124,6 +215,7 @@ type vtxWorld struct {
 	pending    *vtxCall // the call whose Begin phase is in progress
 	calls      map[int]*vtxCall
 	open       int // transactions begun and neither committed nor rolled back
+	bound      int // transactions begun on a cancellable context (never, with sql.DB.Begin())
 }
 
 var (
@@ -186,22 +278,36 @@ func (vtxDriver) Open(dsn string) (driver.Conn, error) {
 
 func (c *vtxConn) Close() error { return nil }
 
-func (c *vtxConn) Begin() (driver.Tx, error) {
+func (c *vtxConn) Begin() (driver.Tx, error) { return c.begin(false) }
+
+// BeginTx (driver.ConnBeginTx): lets the "database" see whether the transaction is tied to a
+// context that can end (sql.DB.BeginTx(ctx)) -- database/sql then rolls it back on its own when
+// that context is done -- or not (sql.DB.Begin(): context.Background()).
+func (c *vtxConn) BeginTx(ctx context.Context, _ driver.TxOptions) (driver.Tx, error) {
+	return c.begin(ctx.Done() != nil)
+}
+
+func (c *vtxConn) begin(bound bool) (driver.Tx, error) {
 	w := c.w
 	w.mu.Lock()
 	defer w.mu.Unlock()
 	call := w.pending
 	if call == nil { // a Begin nobody asked for: attribute to call 0 (unknown to the spec)
-		w.em.Emit(verifEv{"e": "begin", "t": 0, "ok": true})
+		w.em.Emit(verifEv{"e": "begin", "t": 0, "ok": true, "b": bound})
 		w.open++
 		c.tx = &vtxTx{c: c, call: &vtxCall{}}
 		return c.tx, nil
 	}
-	switch call.beginOutcome() {
-	case "ok":
+	o := call.beginOutcome()
+	switch {
+	case o == "ok":
 		w.open++
 		c.tx = &vtxTx{c: c, call: call}
-		w.em.Emit(verifEv{"e": "begin", "t": call.t, "ok": true})
+		call.bound = bound
+		if bound {
+			w.bound++
+		}
+		w.em.Emit(verifEv{"e": "begin", "t": call.t, "ok": true, "b": bound})
 		if w.concurrent {
 			w.pending = nil
 			if call.holds {
@@ -210,11 +316,14 @@ func (c *vtxConn) Begin() (driver.Tx, error) {
 			}
 		}
 		return c.tx, nil
-	case "bad":
-		w.em.Emit(verifEv{"e": "begin", "t": call.t, "ok": false})
+	case o == "bad":
+		w.em.Emit(verifEv{"e": "begin", "t": call.t, "ok": false, "b": false})
 		return nil, call.note("begin", driver.ErrBadConn)
+	case strings.HasPrefix(o, "f:"): // fails with a particular error value
+		w.em.Emit(verifEv{"e": "begin", "t": call.t, "ok": false, "b": false})
+		return nil, call.failure("begin", o[2:])
 	default: // fail (or a noconn that met a pooled connection)
-		w.em.Emit(verifEv{"e": "begin", "t": call.t, "ok": false})
+		w.em.Emit(verifEv{"e": "begin", "t": call.t, "ok": false, "b": false})
 		return nil, call.fault("begin")
 	}
 }
@@ -230,7 +339,7 @@ func (x *vtxTx) end(kind string) error {
 	ok := x.call.sc.Fin != "fail"
 	w.em.Emit(verifEv{"e": kind, "t": x.call.t, "ok": ok})
 	if !ok {
-		return x.call.fault(kind)
+		return x.call.failure(kind, x.call.sc.Fk)
 	}
 	return nil
 }
@@ -257,13 +366,13 @@ func (c *vtxConn) statement(q string, kind string) error {
 		x = c.tx.call.t
 	}
 	call := w.calls[t]
-	ok := true
+	ok, id := true, ""
 	if call != nil && k >= 0 && k < len(call.sc.Stmts) && kind != "pexec" {
-		ok = call.sc.Stmts[k].Ok
+		ok, id = call.sc.Stmts[k].Ok, call.sc.Stmts[k].Ek
 	}
 	w.em.Emit(verifEv{"e": "stmt", "t": t, "x": x, "k": k, "kind": kind, "ok": ok})
 	if !ok {
-		return call.fault("stmt")
+		return call.failure("stmt", id)
 	}
 	return nil
 }
@@ -332,6 +441,9 @@ func (w *vtxWorld) body(c *vtxCall) func(context.Context, vtxSession) error {
 			if w.concurrent { // perturbation only: let other transactions interleave
 				runtime.Gosched()
 			}
+			if c.sc.Cx.At == "body" && c.sc.Cx.K == k {
+				c.ctxDone(w)
+			}
 			q := fmt.Sprintf("/*t=%d,k=%d*/ %s", c.t, k, st.Kind)
 			switch st.Kind {
 			case "exec":
@@ -358,10 +470,17 @@ func (w *vtxWorld) body(c *vtxCall) func(context.Context, vtxSession) error {
 		if w.concurrent {
 			runtime.Gosched()
 		}
+		if c.sc.Cx.At == "body" { // K >= number of statements: just before the body returns
+			c.ctxDone(w)
+		}
 		switch c.sc.End {
 		case "err":
 			w.em.Emit(verifEv{"e": "bodyEnd", "t": c.t, "how": "err"})
-			switch c.sc.Ek { // errors the connection's breaker treats as acceptable
+			switch c.sc.Ek { // errors the connection's breaker treats as acceptable, and other sentinels
+			case "bad":
+				return c.note("body", driver.ErrBadConn)
+			case "deadline":
+				return c.note("body", context.DeadlineExceeded)
 			case "norows":
 				return c.note("body", sql.ErrNoRows)
 			case "notfound":
@@ -404,6 +523,17 @@ func (w *vtxWorld) run(t int, sc vtxScript, tr vtxTransactor, useCtx bool) {
 	w.pending = c
 	w.mu.Unlock()
 	w.em.Emit(verifEv{"e": "call", "t": t})
+	// the caller's context: only TransactCtx takes one; it ends where the script says
+	ctx := context.Background()
+	if useCtx && (sc.Cx.At == "pre" || sc.Cx.At == "body") {
+		var end func()
+		ctx, end = vtxCallerCtx(sc.Cx.How)
+		c.endCtx = end
+		defer end()
+		if sc.Cx.At == "pre" {
+			c.ctxDone(w)
+		}
+	}
 	var ret error
 	panicked := false
 	func() {
@@ -412,7 +542,7 @@ func (w *vtxWorld) run(t int, sc vtxScript, tr vtxTransactor, useCtx bool) {
 				panicked = true
 			}
 		}()
-		ret = tr(useCtx, w.body(c))
+		ret = tr(ctx, useCtx, w.body(c))
 	}()
 	w.mu.Lock()
 	if w.pending == c {
@@ -453,8 +583,17 @@ func (w *vtxWorld) run(t int, sc vtxScript, tr vtxTransactor, useCtx bool) {
 
 func (w *vtxWorld) end() {
 	w.mu.Lock()
-	n := w.open
+	n, bound := w.open, w.bound
 	w.mu.Unlock()
+	// Context-bound transactions only (none with sql.DB.Begin()): database/sql rolls them back
+	// from a goroutine of its own; give that a bounded chance to be seen in this trace.  How many
+	// are still open is logged, not judged.
+	for i := 0; bound > 0 && n > 0 && i < 2000; i++ {
+		time.Sleep(time.Millisecond)
+		w.mu.Lock()
+		n = w.open
+		w.mu.Unlock()
+	}
 	w.em.Emit(verifEv{"e": "end", "open": n})
 }
 
@@ -504,19 +643,37 @@ func vtxRandomScript(rnd interface{ Intn(int) int }, maxStmts int, failBias int)
 		break
 	}
 	kinds := []string{"exec", "exec", "query", "query", "prep", "nest"}
+	// error values of failing statements / commits / rollbacks: mostly ordinary errors, sometimes
+	// one of the sentinels database/sql, the breaker or a caller may treat specially
+	ids := []string{"plain", "plain", "plain", "plain", "bad", "bad", "txdone", "norows", "canceled", "deadline", "eof", "conndone"}
 	n := rnd.Intn(maxStmts + 1)
 	for i := 0; i < n; i++ {
 		k := kinds[rnd.Intn(len(kinds))]
-		sc.Stmts = append(sc.Stmts, vtxStmtSpec{Kind: k, Ok: k == "nest" || rnd.Intn(4) != 0})
+		st := vtxStmtSpec{Kind: k, Ok: k == "nest" || rnd.Intn(4) != 0}
+		if !st.Ok {
+			st.Ek = ids[rnd.Intn(len(ids))]
+		}
+		sc.Stmts = append(sc.Stmts, st)
 	}
 	sc.End = []string{"nil", "nil", "err", "panic"}[rnd.Intn(4)]
 	switch sc.End {
 	case "err":
-		sc.Ek = []string{"plain", "plain", "norows", "notfound", "canceled", "txdone"}[rnd.Intn(6)]
+		sc.Ek = []string{"plain", "plain", "plain", "norows", "notfound", "canceled", "txdone", "bad", "deadline"}[rnd.Intn(9)]
 	case "panic":
 		sc.Ek = []string{"str", "err", "rt"}[rnd.Intn(3)]
 	}
 	sc.Fin = []string{"ok", "ok", "fail"}[rnd.Intn(3)]
+	if sc.Fin == "fail" {
+		sc.Fk = ids[rnd.Intn(len(ids))]
+	}
+	// the caller's context (TransactCtx only) ends in one call out of five
+	sc.Cx.At = "none"
+	if rnd.Intn(5) == 0 {
+		sc.Cx = vtxCx{At: "body", K: rnd.Intn(n + 1), How: []string{"cancel", "deadline"}[rnd.Intn(2)]}
+		if rnd.Intn(8) == 0 {
+			sc.Cx.At = "pre"
+		}
+	}
 	return sc
 }
 
